@@ -11,6 +11,7 @@
 // next MPI call, and only one rank runs at a time under simmpi.
 #include <ygm/comm.hpp>
 #include <ygm/container/array.hpp>
+#include <ygm/container/tagged_bag.hpp>
 #include <ygm/container/bag.hpp>
 #include <ygm/container/map.hpp>
 #include <ygm/container/set.hpp>
@@ -182,6 +183,8 @@ int main(int argc, char **argv) {
     line(s);
     // "stored only on its owner, seen exactly once": fill the containers from rank 0 (+ unions and lookups for the
     // disjoint_set, whose lookups re-parent items), then every rank lists what it holds locally
+    ygm::container::tagged_bag<int> tb(world);
+    for (int i = 0; i < 7; ++i) tb.async_insert(me * 100 + i);         // tags are generated on the inserting rank
     if (me == 0) {
       for (int k : keys) { mi.async_insert(k, k + 1); ds.async_union(k, keys[0]); }
       for (int k = 0; k < 30; ++k) { std::string key = "key" + std::to_string(k * k) + (k % 3 ? "" : "_x"); ms.async_insert(key, k); ss.async_insert(key); }
@@ -194,6 +197,9 @@ int main(int argc, char **argv) {
     for (auto &kv : ms.m_impl.m_local_map) s += " ms," + std::to_string(std::hash<std::string>{}(kv.first)) + "," + std::to_string(ms.owner(kv.first));
     for (auto &k : ss.m_impl.m_local_set) s += " ss," + std::to_string(std::hash<std::string>{}(k)) + "," + std::to_string(ss.m_impl.owner(k));
     for (auto &kv : ds.m_impl.m_local_item_parent_map) s += " ds," + std::to_string(kv.first) + "," + std::to_string(ds.m_impl.owner(kv.first));
+    // tagged_bag: every stored tag is owned (owner / is_mine of the tagged_bag itself) by the rank that stores it
+    for (auto &kv : tb.m_tagged_bag.m_impl.m_local_map)
+      s += " tb," + std::to_string(kv.first) + "," + std::to_string(tb.is_mine(kv.first) ? tb.owner(kv.first) : -1 - tb.owner(kv.first));
     line(s);
     size_t n_for_all = 0;
     ds.for_all([&](const int &item, const int &rep) { ++n_for_all; });
